@@ -30,6 +30,15 @@ def r1(ctx, R):
             w = f'{ci.module.relpath}:{ci.name}.{name}'
             R.fn(w)
             P = Purity(fn, resolver=lambda m, _ci=ci: (repo.resolve(_ci, m) or (None, None))[1])
+            # library routines that are TOLD to work in place: overwrite_a / overwrite_b / overwrite_x / out= with an argument of ours
+            prm = {a.arg for a in fn.args.args} - {'self'}
+            for c in ast.walk(fn):
+                if isinstance(c, ast.Call):
+                    ow = [k.arg for k in c.keywords if k.arg and k.arg.startswith('overwrite') and isinstance(k.value, ast.Constant) and k.value.value is True]
+                    outs = [k.value.id for k in c.keywords if k.arg == 'out' and isinstance(k.value, ast.Name) and k.value.id in prm]
+                    direct = [a.id for a in c.args if isinstance(a, ast.Name) and a.id in prm]
+                    if (ow and direct) or outs:
+                        R.bad(f'{ci.name}.{name} :: hands parameter {sorted(set(direct + outs))} to a routine that may overwrite it', w, 'arguments are read-only; no overwrite_* / out= on an argument', f'line {c.lineno}: {ast.unparse(c)[:90]}')
             hits = [h for h in P.hits if h.params()]
             if not hits:
                 R.ok(f'{ci.name}.{name} :: no in-place write reaches a parameter', w, found=f'{len(P.params)} parameter(s) tracked; {len(P.aug_alias)} rebinding augmented assignment(s) on aliases (value-semantic, see C13.R1)')
@@ -309,10 +318,24 @@ def r5(ctx, R):
     for ci in _problems(repo):
         dicts = None
         for name, fn in ci.methods.items():
-            if not name.startswith('solve_system'):
+            if name == '__init__':
                 continue
             if dicts is None:
                 dicts = _dict_attrs(repo, ci)
+            if not dicts:
+                break
+            # approximate hits: a loop over the entries of a cache that accepts a NEAR key
+            for l in ast.walk(fn):
+                if isinstance(l, ast.For):
+                    it = l.iter
+                    if isinstance(it, ast.Call) and isinstance(it.func, ast.Attribute) and it.func.attr in ('items', 'keys'):
+                        it = it.func.value
+                    if isinstance(it, ast.Attribute) and isinstance(it.value, ast.Name) and it.value.id == 'self' and it.attr in dicts:
+                        approx = [ast.unparse(c)[:60] for c in ast.walk(l) if isinstance(c, ast.Call) and ast.unparse(c.func).split('.')[-1] in ('isclose', 'allclose')]
+                        approx += [ast.unparse(c)[:60] for c in ast.walk(l) if isinstance(c, ast.Compare) and any(isinstance(x, ast.Call) and ast.unparse(x.func) in ('abs', 'np.abs') for x in ast.walk(c.left)) and isinstance(c.ops[0], (ast.Lt, ast.LtE))]
+                        if approx:
+                            n += 1
+                            R.bad(f'{ci.name}.{name} :: the cache self.{it.attr} is searched for an entry whose key is CLOSE to the argument', f'{ci.module.relpath}:{ci.name}.{name}', 'exact key equality (two different factors never share one factorisation)', approx[:2])
             keys = _cache_keys(fn, dicts)
             if not keys:
                 continue
@@ -321,7 +344,7 @@ def r5(ctx, R):
             params = {a.arg for a in fn.args.args} - {'self'}
             for attr in sorted({a for a, _, _ in keys}):
                 n += 1
-                bad = sorted({f'line {ln}: self.{a}[{k}]' for a, k, ln in keys if a == attr and k not in params and not _evict_key(fn, k)})
+                bad = sorted({f'line {ln}: self.{a}[{k}]' for a, k, ln in keys if a == attr and k not in params and not _evict_key(fn, k) and not re.fullmatch(r"'[^']*'|\"[^\"]*\"", k)})
                 R.check(not bad, f'{ci.name}.{name} :: the cache self.{attr} is looked up and filled with a parameter of the call as key', w, f'key in {sorted(params)}', bad)
     if not n:
         raise AnalysisError('C12.R5: the confirmed cache (GenericSpectralLinear.cached_factorizations) not found')
@@ -437,3 +460,68 @@ def r6(ctx, R):
                 R.check(ue == us, f'{ci.name} :: self.{h}(..) depends on the time argument in eval_f and in {sname} alike', w, f'eval_f: {"uses" if ue else "does not use"} `{te}`', f'{sname}: {"uses" if us else "does not use"} `{ts}`')
     if n < 2:
         raise AnalysisError(f'C12.R6: expected the Prothero-Robinson pair (scalar and autonomous), found {n} paired helper(s)')
+
+
+@rule('C12', 'C12.R7', 'caches inside problem classes (factorisations, solvers, assembled operators): the key carries everything the cached object depends on, shared (class-level) caches also the attributes of the instance (general memo analysis; R5 checks the exactness of the key)', floor=4)
+def r7(ctx, R):
+    from .. import memo
+    memo.check(ctx, R, lambda m: m.relpath.startswith('pySDC/implementations/problem_classes/'), 'implementations/problem_classes')
+
+
+_CONTROL_SHARED = '''
+class A:
+    def __init__(self, n):
+        self.lap = self.symbol(n)
+    @staticmethod
+    @lru_cache(maxsize=None)
+    def symbol(n):
+        return build(n)
+class B(A):
+    def __init__(self, n, eps):
+        super().__init__(n)
+        self.lap -= 2.0 / eps**2
+'''
+
+
+def _shared_attr_mutations(classes):
+    """classes: list of ast.ClassDef.  Attributes bound to the result of a cached function (shared by every instance that asks
+    with the same arguments) and the in-place changes of such an attribute anywhere in the given classes"""
+    cached = set()
+    for c in classes:
+        for f in c.body:
+            if isinstance(f, ast.FunctionDef) and any(ast.unparse(d.func if isinstance(d, ast.Call) else d).split('.')[-1] in ('cache', 'lru_cache') for d in f.decorator_list):
+                cached.add(f.name)
+    shared = {}
+    for c in classes:
+        for s in ast.walk(c):
+            if isinstance(s, ast.Assign) and len(s.targets) == 1 and isinstance(s.targets[0], ast.Attribute) and ast.unparse(s.targets[0].value) == 'self' and isinstance(s.value, ast.Call) and ast.unparse(s.value.func).split('.')[-1] in cached:
+                shared[s.targets[0].attr] = f'{c.name} line {s.lineno}'
+    muts = []
+    for c in classes:
+        for s in ast.walk(c):
+            tg = [s.target] if isinstance(s, ast.AugAssign) else [t for t in s.targets if isinstance(t, ast.Subscript)] if isinstance(s, ast.Assign) else []
+            for t in tg:
+                b = t
+                while isinstance(b, ast.Subscript):
+                    b = b.value
+                if isinstance(b, ast.Attribute) and ast.unparse(b.value) == 'self' and b.attr in shared:
+                    muts.append(f'{c.name} line {s.lineno}: {ast.unparse(s)[:70]} (self.{b.attr} comes from a cached function, {shared[b.attr]})')
+    return shared, muts
+
+
+@rule('C12', 'C12.R8', 'operators shared through a cached builder are never changed in place: an attribute bound to the result of an @lru_cache / @cache function is one object for all instances on the same grid, so `self.lap -= shift` in a subclass shifts the operator of every other instance (eval_f of the unshifted sibling is then wrong)', floor=1)
+def r8(ctx, R):
+    repo = ctx.repo
+    sh, mu = _shared_attr_mutations([n for n in ast.parse(_CONTROL_SHARED).body if isinstance(n, ast.ClassDef)])
+    R.check(set(sh) == {'lap'} and len(mu) == 1, 'positive control :: an in-place shift of a cached operator in a subclass is recognised in the embedded example', 'sa/rules/c12.py:_CONTROL_SHARED', 'one mutation of self.lap', mu)
+    by_mod = {}
+    for ci in _problems(repo):
+        by_mod.setdefault(ci.module.relpath, []).append(ci.node)
+    n = 0
+    for rel, nodes in sorted(by_mod.items()):
+        sh, mu = _shared_attr_mutations(nodes)
+        for a in sh:
+            n += 1
+        if sh:
+            R.check(not mu, f'{rel} :: attributes {sorted(sh)} hold cached (shared) objects and are only read', rel, 'no augmented assignment / element store on them', mu[:3])
+    R.ok('implementations/problem_classes :: scan for attributes bound to cached builders', 'pySDC/implementations/problem_classes', found=f'{n} such attribute(s)')
